@@ -55,6 +55,8 @@ type Call struct {
 	E2E         int    `json:"e2e,omitempty"`
 	ReverseDNS  bool   `json:"reverseDNS,omitempty"`
 	PublicIP    bool   `json:"publicIP,omitempty"`
+	// BoolStyle: how the HTTP query spells its booleans: 0 true/false, 1 "1"/"0", 2 TRUE/FALSE, 3 True/False
+	BoolStyle int `json:"boolStyle,omitempty"`
 	SkipPrivate bool   `json:"skipPrivate,omitempty"`
 	RawQuery    string `json:"rawQuery,omitempty"` // http_handler: query string used verbatim when set
 
